@@ -183,7 +183,14 @@ Fixpoint visit (t : tree) (g : gstack) : option tree * gstack :=
         else if N.eqb tg T_Try then
           match ks' with
           | [body; handlers; orelse; fin] =>
-              (Some (Nd tg [filter_body body; handlers; filter_body orelse; filter_body fin]), g2)
+              (* a `finally` clause of which nothing is left stays as `pass` when the statement has
+                 no handlers either (Python rejects a try with neither) *)
+              let fin' :=
+                match filter_dead (items_of fin), items_of handlers with
+                | [], [] => if opt_try_keeps_finally then Nd T_LIST [Nd T_Pass []] else filter_body fin
+                | _, _ => filter_body fin
+                end in
+              (Some (Nd tg [filter_body body; handlers; filter_body orelse; fin']), g2)
           | _ => (Some (Nd tg ks'), g2)
           end
         else (Some (Nd tg ks'), g2)
